@@ -24,6 +24,15 @@ CHECKS = {
              "single-threaded baseline. Held on the histories, seeds and interleavings observed.",
         note="Hash seeds and interleavings are sampled; the evidence reports switches observed inside overlapping render windows.",
         ref="DESIGN.md section 4 C02"),
+    "C04": dict(
+        technique="lockstep walk of the token streams of the parameterised and inline renderings (reference lexers); sqlite3 executes both forms",
+        text="Every single-value position x value kind x dialect, fixed multi-clause statements (upsert, UPDATE..ORDER BY/LIMIT, "
+             "set operations, CTEs, SQL Server offset/fetch) and seeded random statements of every kind are rendered with and "
+             "without a Parameterizer; placeholders must be in dialect style, count and order, values plain data, and each "
+             "placeholder must stand where the inline literal that decodes to its value stands; SQLite executes both forms. "
+             "Held on the executions observed.",
+        note="Reference lexers decide placeholder style and literal decoding for the non-SQLite dialects.",
+        ref="DESIGN.md section 4 C04"),
     "C05": dict(
         technique="differential tokenisation with reference dialect lexers; sqlite3 engine evaluates emitted literals",
         text="Complete product value-position x value-class x dialect plus seeded hostile random values: the statement rendered "
